@@ -99,7 +99,7 @@ def step (c : Chain) (toks : List String) : Chain × String :=
     | some id, some par, some bits, some ntx =>
       match takeTxs ntx rest with
       | some (txs, []) =>
-        let (c', o) := deliver c { id := id, parent := par, bits := bits, txs := txs }
+        let (c', o) := deliverIdx c { id := id, parent := par, bits := bits, txs := txs }
         (c', s!"{o.name} {summary c' (d == "1")}")
       | _ => bad
     | _, _, _, _ => bad
